@@ -99,7 +99,21 @@ func runCtorFail(a tr.Args) error {
 	}
 	page := syscall.Getpagesize()
 	runtime.LockOSThread()
-	old := debug.SetGCPercent(-1) // no collector activity while the process sits at the limit
+	// While the process sits at the limit the Go runtime itself must not need a
+	// new mapping (growing the heap would split a reservation and abort the
+	// process).  So: everything lazy is initialised by one ordinary
+	// constructor call, the heap is grown once and emptied again, and the
+	// collector is switched off for the duration.
+	if wb, werr := sbytes.NewMirroredBuffer(page, false); werr == nil {
+		_ = wb.Destroy()
+	}
+	warm := make([]byte, 64<<20)
+	for i := 0; i < len(warm); i += 4096 {
+		warm[i] = 1
+	}
+	warm = nil
+	runtime.GC()
+	old := debug.SetGCPercent(-1)
 	defer debug.SetGCPercent(old)
 	mapsPath := append([]byte("/proc/self/maps"), 0)
 	failed, succeeded := 0, 0
